@@ -115,14 +115,21 @@ func peekPredicate(v ssa.Value, rd ssa.Value) *ssa.Function {
 	if p == nil {
 		return nil
 	}
-	arg, ok := stripConv(c.Common().Args[0]).(*ssa.Call)
-	if !ok {
+	// the byte may be kept in a loop variable: every value merged into it is reader.Peek()
+	leaves := phiLeaves(stripConv(c.Common().Args[0]))
+	if len(leaves) == 0 {
 		return nil
 	}
-	if com := arg.Common(); com.IsInvoke() && com.Value == rd && com.Method.Name() == "Peek" {
-		return p
+	for _, l := range leaves {
+		arg, ok := stripConv(l).(*ssa.Call)
+		if !ok {
+			return nil
+		}
+		if com := arg.Common(); !com.IsInvoke() || com.Value != rd || com.Method.Name() != "Peek" {
+			return nil
+		}
 	}
-	return nil
+	return p
 }
 
 // prove: "" if every return of fn whose last result can be true is reached only after the reader moved forward.
